@@ -310,6 +310,58 @@ func runSingle(scr string) []singleRes {
 	return out
 }
 
+// sigRes: a fully built V0/V1 withdrawal whose m-of-n cross-chain program carries signatures
+// from the given arbiters (a repeated arbiter signs again: ECDSA signing is randomised, so the
+// signatures are distinct and each one is valid).
+type sigRes struct {
+	Version  int    `json:"version"`
+	Signers  []int  `json:"signing_arbiters"`
+	Distinct int    `json:"distinct_arbiters"`
+	M        int    `json:"m"`
+	Accepted bool   `json:"accepted"`
+	Verdict  string `json:"verdict"`
+}
+
+func (f *fixtureB) runSignatureSets() []sigRes {
+	sets := [][]int{{0, 1, 2}, {2, 1, 0}, {0, 1, 2, 3}, {0, 0, 0}, {0, 1, 1}, {0, 0, 1}, {3, 3, 2}, {0, 0, 0, 0}, {0, 1, 0, 1}, {0, 1}, {0}, {0, 0}}
+	var out []sigRes
+	for version := 0; version <= 1; version++ {
+		for _, set := range sets {
+			tx := mkWithdrawLayout(byte(version), nil, []*common2.Input{f.utxo()}, f.owner.StandardHash(), []slot{{Hash: freshHash(0xD1)}}, nil)
+			attr := common2.NewAttribute(common2.Nonce, []byte(fmt.Sprintf("c33-sig-%d", f.next)))
+			tx.SetAttributes([]*common2.Attribute{&attr})
+			var keys []lightnode.Key
+			d := map[int]bool{}
+			for _, i := range set {
+				keys = append(keys, f.arb[i])
+				d[i] = true
+			}
+			p, err := lightnode.SignCrossChain(tx, f.code, keys)
+			if err != nil {
+				evid.Fatalf("sign: %v", err)
+			}
+			tx.SetPrograms([]*program.Program{p})
+			ok, v := f.offer(tx)
+			out = append(out, sigRes{Version: version, Signers: set, Distinct: len(d), M: f.m, Accepted: ok, Verdict: v})
+		}
+	}
+	return out
+}
+
+func judgeSignatureSets(r *evid.Run, xs []sigRes, classes *evid.Distinct) {
+	for _, x := range xs {
+		classes.Add(fmt.Sprintf("sigs|v%d|signatures=%d|distinct=%d|accepted=%v", x.Version, len(x.Signers), x.Distinct, x.Accepted))
+		art := map[string]interface{}{"kind": "signature-set", "case": x}
+		if x.Distinct >= x.M && len(x.Signers) == x.Distinct && !x.Accepted {
+			evid.Fatalf("C33 signature fixture: %d distinct arbiters signing is not accepted: %+v", x.Distinct, x)
+		}
+		if x.Accepted && x.Distinct < x.M {
+			r.Violate(fmt.Sprintf("C33|quorum|v%d|signatures-not-from-distinct-arbiters", x.Version),
+				fmt.Sprintf("a v%d withdrawal whose %d-of-%d program carries %d valid signatures made by only %d distinct arbiter(s) %v passes CheckTransactionSanity + CheckTransactionContext", x.Version, x.M, nB, len(x.Signers), x.Distinct, x.Signers), art)
+		}
+	}
+}
+
 type layoutGen struct {
 	Name  string
 	build func(x common.Uint256) []slot
